@@ -321,6 +321,46 @@ class MetaPart(Part):
         return f.metadata
 
 
+class HdrBlockPart(Part):
+    """A header block of the request or response in the shapes 'present but empty' / one field / absent (trailers) or
+    two fields (headers).  Owns the whole "request" / "response" state key, so it never shares a scenario with
+    ReqPart / RespPart or with the other block of the same message (see pick_parts)."""
+    always_init = True  # concrete value 0 (the empty block) is not the as-created shape of a tflow
+
+    def __init__(self, side, attr):
+        self.side, self.attr = side, attr
+        self.key = side
+        self.name = f"{'req' if side == 'request' else 'resp'}_{'trail' if attr == 'trailers' else 'hdr0'}"
+
+    def _target(self, v):
+        if self.attr == "trailers":
+            return [(), ((b"x-trailer", b"1"),), None][v]
+        return [(), ((b"x-only", b"1"),), ((b"x-only", b"1"), (b"x-second", b"2"))][v]
+
+    def apply(self, f, v, style):
+        from mitmproxy import http
+
+        msg = getattr(f, self.side)
+        target = self._target(v)
+        cur = getattr(msg, self.attr)
+        if target is None:
+            setattr(msg, self.attr, None)
+        elif style == 1 and cur is not None:
+            cur.fields = tuple(target)  # same Headers object, new content
+        elif style == 2 and cur is not None:
+            for n in {n for n, _ in cur.fields}:
+                del cur[n.decode()]
+            for n, val in target:  # same Headers object, through the item API
+                cur[n.decode()] = val.decode()
+        else:
+            setattr(msg, self.attr, http.Headers(target))
+
+    def snap(self, f):
+        msg = getattr(f, self.side)
+        t = msg.trailers
+        return [list(msg.headers.fields), None if t is None else list(t.fields)]
+
+
 class StrPart(Part):
     def __init__(self, name, key, attr, vals):
         self.name, self.key, self.attr, self.vals = name, key, attr, vals
@@ -355,7 +395,8 @@ def parts_of(ftype: str) -> dict[str, Part]:
     common = [MetaPart(), StrPart("mark", "marked", "marked", ["", ":grapes:", "x"]),
               StrPart("comment", "comment", "comment", ["", "hello", "bye"]), ErrPart()]
     if ftype == "http":
-        ps = [ReqPart(), RespPart()] + common
+        ps = [ReqPart(), RespPart(), HdrBlockPart("request", "trailers"), HdrBlockPart("request", "headers"),
+              HdrBlockPart("response", "trailers"), HdrBlockPart("response", "headers")] + common
     elif ftype == "ws":
         ps = [ReqPart(), MsgsPart("ws")] + common
     elif ftype in ("tcp", "udp"):
@@ -366,7 +407,7 @@ def parts_of(ftype: str) -> dict[str, Part]:
 
 
 PART_NAMES = {
-    "http": ["req", "resp", "meta", "mark", "comment", "err"],
+    "http": ["req", "resp", "req_trail", "req_hdr0", "resp_trail", "resp_hdr0", "meta", "mark", "comment", "err"],
     "ws": ["req", "msgs", "meta", "mark", "comment", "err"],
     "tcp": ["msgs", "meta", "mark", "comment", "err"],
     "udp": ["msgs", "meta", "mark", "comment", "err"],
@@ -376,6 +417,22 @@ PART_NAMES = {
 
 # ------------------------------------------------------------------------------------------------------------------
 _PARTKEYS: dict = {}  # (ftype, part, concrete value) -> key of the part's sub-state, built once per process
+
+
+def pick_parts(rng, ftype, n=None):
+    """n (default: as many as possible) parts of the type, no two owning the same get_state() key, in random order"""
+    parts = parts_of(ftype)
+    names = list(PART_NAMES[ftype])
+    rng.shuffle(names)
+    out, keys = [], set()
+    for nm in names:
+        if parts[nm].key in keys:
+            continue
+        out.append(nm)
+        keys.add(parts[nm].key)
+        if n is not None and len(out) == n:
+            break
+    return out
 
 
 class Decoder:
@@ -431,7 +488,7 @@ def run_scenario(sc):
     flows = [new_flow(ftype)]
     flows[0].live = True
     for i, name in enumerate(fields):  # the scenario's starting content (abstract value 0 of every field)
-        if vmap[i][0] != 0:
+        if vmap[i][0] != 0 or getattr(dec.parts[name], "always_init", False):
             dec.parts[name].apply(flows[0], vmap[i][0], 0)
     trace = []
 
@@ -490,7 +547,8 @@ class Check(core.PropertyCheck):
         "up among the values the scenario can produce; undecodable states get fresh ids, so a harness mistake shows as "
         "drift, never as a verdict",
         "'carries a backup' is read as get_state()['backup'] is not None",
-        "the concrete edits (three values per part, by assignment / object replacement / in-place mutation) stand for "
+        "the concrete edits (three values per part -- including header / trailer blocks that are present but empty -- by "
+        "assignment / object replacement / in-place mutation) stand for "
         "'arbitrary edits'; connection objects (client_conn / server_conn) are not edited",
     )
 
@@ -514,8 +572,7 @@ class Check(core.PropertyCheck):
     # -- concretisation --------------------------------------------------------------------------------------------
     @staticmethod
     def _concretise(rng, ftype, nfields, nvals):
-        names = PART_NAMES[ftype]
-        fields = rng.sample(names, nfields)
+        fields = pick_parts(rng, ftype, nfields)
         # abstract value v of field i is the concrete value vmap[i][v]; the flow is brought to vmap[i][0] before "init"
         vmap = [rng.sample([0, 1, 2], nvals) for _ in fields]
         return fields, vmap
@@ -558,9 +615,7 @@ class Check(core.PropertyCheck):
         # histories beyond the model's bounds: every part of the type, three values, up to 5 flows, long histories
         for _ in range(300 if ctx.quick else 4000):
             ftype = rng.choice(TYPES)
-            names = PART_NAMES[ftype]
-            fields = list(names)
-            rng.shuffle(fields)
+            fields = pick_parts(rng, ftype)
             vmap = [rng.sample([0, 1, 2], 3) for _ in fields]
             ops, nflows = [], 1
             has_bk = set()
